@@ -455,13 +455,21 @@ def collect_variable_lookup(
         # in the condition refers to the closure or to the globals, even if the function
         # has an argument of the same name.
         parameters = inspect.signature(condition).parameters
-        variable_lookup.append(
-            {
-                name: value
-                for name, value in resolved_kwargs.items()
-                if name in parameters
-            }
-        )
+        kwargs_lookup = {
+            name: value
+            for name, value in resolved_kwargs.items()
+            if name in parameters
+        }
+
+        # A parameter of the condition which the call does not supply takes its default value.
+        for name, parameter in parameters.items():
+            if (
+                name not in kwargs_lookup
+                and parameter.default is not inspect.Parameter.empty
+            ):
+                kwargs_lookup[name] = parameter.default
+
+        variable_lookup.append(kwargs_lookup)
 
     ##
     # Add closure to the lookup
